@@ -365,17 +365,18 @@ def run(rep, facts, tier):
             'purge at `#)` (swap_remove) can put the older one last', cw.name, cw.j['span'])
     # the dictionary loop keeps only constants
     keeps_const = False
-    for bb in cc.reachable_blocks():
-        t = cc.blocks[bb]['term']
-        if t['k'] == 'switch':
-            e = cc.expr_of_operand(t['discr'])
-            if isinstance(e, tuple) and e[0] == 'discr' and e[2] == 'state::Entry':
-                vs = None
-                for st in cc.blocks[bb]['stmts']:
-                    if st['k'] == 'assign' and st['rv']['k'] == 'discr':
-                        vs = dict(st['rv']['variants'])
-                names = [(vs or {}).get(v, str(v)) for v, _ in t['targets']]
-                keeps_const = names == ['Constant']
+    # the test may stand in the loop itself or in the closure of a `retain` (of context_close or of a helper spliced into it)
+    owners = {'state::State::context_close'} | set(V.inlined_into('state::State::context_close') or [])
+    bodies = [cc] + [g for n_, g in sorted(fx.fns.items()) if '::{closure' in n_ and n_.split('::{closure')[0] in owners]
+    evs = (fx.adts.get('state::Entry') or {}).get('variants', [])
+    for g in bodies:
+        for bb in g.reachable_blocks():
+            t = g.blocks[bb]['term']
+            if t['k'] == 'switch':
+                e = g.expr_of_operand(t['discr'])
+                if isinstance(e, tuple) and e[0] == 'discr' and e[2] == 'state::Entry':
+                    names = [evs[v]['name'] if isinstance(v, int) and v < len(evs) else str(v) for v, _ in t['targets']]
+                    keeps_const = keeps_const or names == ['Constant']
     rep.add('C11.R3', 'C11.R3:context_close:keeps-only-constants', keeps_const, 'entries other than Entry::Constant are removed' if keeps_const else
             'the dictionary purge does not test for Entry::Constant alone', cc.name, cc.j['span'])
 
